@@ -181,7 +181,9 @@ pub fn check_plan(plan: &Plan, obs: &mut Obs) -> CaseResult {
                 let g = current_gen.fetch_add(1, Ordering::SeqCst) + 1;
                 handle.set_config(mk(g));
                 let id = (1000 + ci as u64) << 32 | j;
-                with_record("t", log::Level::Info, &id.to_string(), |r| logger.log(r));
+                if let Err(p) = catch(|| with_record("t", log::Level::Info, &id.to_string(), |r| logger.log(r))) {
+                    return Err(format!("PANIC log() panicked right after set_config returned: {}", p));
+                }
                 let d = sink.lock().unwrap();
                 let gens: Vec<usize> = d.iter().filter(|x| x.2 == id).map(|x| x.0).collect();
                 if gens.iter().any(|x| *x != g) {
@@ -210,7 +212,7 @@ pub fn check_plan(plan: &Plan, obs: &mut Obs) -> CaseResult {
         return fail("C15:panic", format!("log() panicked while the configuration was being replaced: {}", p));
     }
     if let Some(e) = self_err {
-        return fail("C15:stale-after-swap", e);
+        return fail(if e.starts_with("PANIC") { "C15:panic" } else { "C15:stale-after-swap" }, e);
     }
     let d = sink.lock().unwrap().clone();
     let fanout = plan.fanout.clone();
@@ -243,14 +245,18 @@ pub fn check_reentrant(c: &Reentrant, obs: &mut Obs) -> CaseResult {
     let logger = log4rs::Logger::new(make_config(0, c.m_old, c.order, &sink, Some((pos, re.clone()))));
     *re.handle.lock().unwrap() = Some(logger.verif_handle());
     // an ordinary record first
-    with_record("t", log::Level::Info, "1", |r| logger.log(r));
+    if let Err(p) = catch(|| with_record("t", log::Level::Info, "1", |r| logger.log(r))) {
+        return fail("C15:panic", format!("log() panicked: {}", p));
+    }
     re.armed.store(true, Ordering::SeqCst);
     let r = catch(|| with_record("t", log::Level::Info, "2", |r| logger.log(r)));
     if let Err(p) = r {
         return fail("C15:panic", format!("set_config from inside append (fan-out position {} of {}) panicked: {}", pos, c.m_old, p));
     }
     ensure!(re.returned.load(Ordering::SeqCst), "C15:reentrant-not-run", "the re-entrant appender was not reached");
-    with_record("t", log::Level::Info, "3", |r| logger.log(r));
+    if let Err(p) = catch(|| with_record("t", log::Level::Info, "3", |r| logger.log(r))) {
+        return fail("C15:panic", format!("the record after a re-entrant swap (old fan-out {}, new fan-out {}) panicked: {}", c.m_old, c.m_new, p));
+    }
     let d = sink.lock().unwrap().clone();
     let (m_old, m_new) = (c.m_old, c.m_new);
     verify_deliveries(&d, &move |g| if g == 0 { m_old } else { m_new }, "re-entrant plan")?;
@@ -312,6 +318,8 @@ pub enum Edit {
     /// change only the refresh rate (seconds) of the current file content
     SetRate(u8),
     RemoveRate,
+    /// different bytes with an mtime older than the previous one (a restored backup, `cp -p`, `mv` of a staged file)
+    WriteOlderMtime(u8),
 }
 
 #[derive(Serialize, Deserialize, Debug, Clone)]
@@ -332,6 +340,7 @@ pub fn reload_strategy() -> impl Strategy<Value = ReloadCase> {
         1 => (0u8..5).prop_map(Edit::WriteSameMtime),
         2 => (1u8..60).prop_map(Edit::SetRate),
         1 => Just(Edit::RemoveRate),
+        2 => (0u8..5).prop_map(Edit::WriteOlderMtime),
     ];
     (prop::bool::weighted(0.3), 0u8..5, 1u8..60, prop::collection::vec(edit, 1..=12)).prop_map(|(json, initial, initial_rate, edits)| ReloadCase { json, initial, initial_rate, edits })
 }
@@ -446,6 +455,7 @@ fn check_reload_in(dir: &Path, c: &ReloadCase, obs: &mut Obs) -> CaseResult {
     des.insert("probe", ProbeDeserializer { sink: sink.clone(), built: built.clone() });
     let t0 = SystemTime::UNIX_EPOCH + Duration::from_secs(1_600_000_000);
     let mut clock = 0u64;
+    let mut older = 0u64;
     let set_file = |text: &str, mtime: SystemTime| {
         std::fs::write(&path, text).unwrap();
         let f = std::fs::OpenOptions::new().write(true).open(&path).unwrap();
@@ -478,6 +488,14 @@ fn check_reload_in(dir: &Path, c: &ReloadCase, obs: &mut Obs) -> CaseResult {
                 file_variant = Some(*v % 5);
                 file_text = variant_text(*v, file_rate, c.json);
                 file_mtime = fresh;
+                file_exists = true;
+                set_file(&file_text, file_mtime);
+            }
+            Edit::WriteOlderMtime(v) => {
+                file_variant = Some(*v % 5);
+                file_text = variant_text(*v, file_rate, c.json);
+                older += 7;
+                file_mtime = t0 - Duration::from_secs(older);
                 file_exists = true;
                 set_file(&file_text, file_mtime);
             }
@@ -602,6 +620,7 @@ fn check_reload_in(dir: &Path, c: &ReloadCase, obs: &mut Obs) -> CaseResult {
     obs.class_if(rate_changed, "rate-changed");
     obs.class_if(touched, "touch-without-change");
     obs.class_if(c.json, "json");
+    obs.class_if(c.edits.iter().any(|e| matches!(e, Edit::WriteOlderMtime(_))), "changed-file-with-older-mtime");
     obs.class_if(c.edits.iter().any(|e| matches!(e, Edit::WriteSameMtime(_))), "same-mtime-different-bytes(modelled)");
     Ok(())
 }
